@@ -101,6 +101,71 @@ Fixpoint approx (n : nat) (o : obj) (c : chk) : bool :=
 
 Definition conforms (o : obj) (c : chk) : Prop := forall n, approx n o c = true.
 
+(* ---------- the same reading with a switch [sk]: when [sk] is true, dictionary and stream
+   entries (and the '*' entry) whose check resolves to type Any are not checked at all — the
+   behaviour of the library that known finding C08-any-entry describes.  With [sk] = false these
+   are the definitions above (by computation). ---------- *)
+Definition is_any (c : chk) : bool :=
+  match @resolve tctx_ c with
+  | Some r => match r_ty r with TAny => true | _ => false end
+  | None => false
+  end.
+
+Definition ents_okg (sk : bool) (rec : obj -> chk -> bool) (d : list (bytes * obj)) (ents : list dent) : bool :=
+  forallb (fun e =>
+    match dict_get d (ent_key e), ent_opt e with
+    | None, KReq => false
+    | None, _ => true
+    | Some _, KForb => false
+    | Some v, _ => if sk && is_any (ent_chk e) then true else rec v (ent_chk e)
+    end) ents.
+
+Definition star_okg (sk : bool) (rec : obj -> chk -> bool) (d : list (bytes * obj)) (ents : list dent)
+           (star : option (chk * kspec)) : bool :=
+  match star with
+  | None => true
+  | Some (sc, so) =>
+    forallb (fun kv =>
+      if existsb (bytes_eqb (fst kv)) (List.map ent_key ents) then true
+      else match so with KForb => false | _ => if sk && is_any sc then true else rec (snd kv) sc end) d
+  end.
+
+Definition type_okg (sk : bool) (rec : obj -> chk -> bool) (o : obj) (t : ty) : bool :=
+  match t, o with
+  | TAny, _ => true
+  | TPrim p, _ => prim_match o p
+  | TArr e sz, OArr l =>
+    match sz with Some n => Nat.eqb (len l) n | None => true end && forallb (fun x => rec x e) l
+  | THet es, OArr l => forallb2 rec l es
+  | TDict ents star, ODict d => ents_okg sk rec d ents && star_okg sk rec d ents star
+  | TStream ents, OStream d _ => ents_okg sk rec d ents
+  | _, _ => false
+  end.
+
+Definition approx1g (sk : bool) (rec : obj -> chk -> bool) (o : obj) (c : chk) : bool :=
+  match @resolve tctx_ c with
+  | None => false
+  | Some r =>
+    match r_ty r with
+    | TDisj alts => rec o (CRep TAny (r_pred r) (r_ind r)) && existsb (rec o) alts
+    | t =>
+      match o with
+      | ORef _ _ => negb (ispec_eqb (r_ind r) IForb) && rec (value_of o) (allow_indirect r)
+      | _ => negb (ispec_eqb (r_ind r) IReq) && pred_ok (r_pred r) o && type_okg sk rec o t
+      end
+    end
+  end.
+
+Fixpoint approxg (sk : bool) (n : nat) (o : obj) (c : chk) : bool :=
+  match n with
+  | O => true
+  | S n' => approx1g sk (approxg sk n') o c
+  end.
+
+Definition conforms_gen (sk : bool) (o : obj) (c : chk) : Prop := forall n, approxg sk n o c = true.
+(* the reading that the library implements (known finding C08-any-entry) *)
+Definition conforms_skip := conforms_gen true.
+
 (* ---------- executable: Kleene iteration over the reachable pairs ---------- *)
 
 (* the pairs [approx1 rec o c] may ask [rec] about *)
